@@ -279,6 +279,11 @@ Definition assign_ext (ad : authdata) (e : option cbor) : authdata :=
   {| ad_rp_id_hash := ad_rp_id_hash ad; ad_flags := ad_flags ad; ad_counter := ad_counter ad;
      ad_acd := ad_acd ad; ad_ext := e |}.
 
+(** assignment to the public field [attested_credential_data] (no flag is touched) *)
+Definition assign_acd (ad : authdata) (a : option acd) : authdata :=
+  {| ad_rp_id_hash := ad_rp_id_hash ad; ad_flags := ad_flags ad; ad_counter := ad_counter ad;
+     ad_acd := a; ad_ext := ad_ext ad |}.
+
 (** the common body of [set_make_credential_extensions] / [set_assertion_extensions]:
     [e] = [extensions.and_then(zip_contents)] already serialised to a [Value]; [None] leaves
     [self] unchanged, [Some v] stores it and sets ED *)
@@ -411,7 +416,8 @@ Inductive step :=
 | SAcd (aaguid id : bytes) (key : cbor)                      (* AttestedCredentialData::new + set_attested_credential_data *)
 | SMc (o : option (option bool * option bytes))              (* set_make_credential_extensions *)
 | SGa (o : option (option bytes))                            (* set_assertion_extensions *)
-| SRaw (e : option cbor).                                    (* ad.extensions = e  (pub field; not a setter) *)
+| SRaw (e : option cbor)                                     (* ad.extensions = e  (pub field; not a setter) *)
+| SAcdRaw (aaguid id : bytes) (key : cbor).                  (* ad.attested_credential_data = Some(new(..)?)  (pub field) *)
 
 Definition apply_step (ad : authdata) (s : step) : outcome authdata :=
   match s with
@@ -425,6 +431,12 @@ Definition apply_step (ad : authdata) (s : step) : outcome authdata :=
   | SMc o => Val (set_make_credential_extensions ad o)
   | SGa o => Val (set_assertion_extensions ad o)
   | SRaw e => Val (assign_ext ad e)
+  | SAcdRaw aaguid id key =>
+      match acd_new aaguid id key with
+      | Val a => Val (assign_acd ad (Some a))
+      | Err => Err
+      | Panic => Panic
+      end
   end.
 
 Fixpoint run_steps (ad : authdata) (l : list step) : outcome authdata :=
